@@ -116,6 +116,7 @@ type DataOpts struct {
 	AllLabelled bool    // every series carries every label (C10-friendly data)
 	MinSeries   int
 	Metrics     []string // metric names to draw from (default m, n, k)
+	Twins       bool     // add series that differ from another one only in the metric name and take over where it ends
 }
 
 type Dataset struct {
@@ -179,6 +180,10 @@ func DrawDataset(t *rapid.T, w Window, o DataOpts) Dataset {
 			if o.AllLabelled || chance(t, 2, 3, "has_"+ln) {
 				lbls = append(lbls, core.Label{N: ln, V: pick(t, labelValues, "val_"+ln)})
 			}
+		}
+		if chance(t, 1, 5, "has_Z") {
+			// a label name that sorts before __name__
+			lbls = append([]core.Label{{N: "Z", V: pick(t, []string{"1", "2"}, "val_Z")}}, lbls...)
 		}
 		if name == "h_bucket" {
 			le := pick(t, []string{"0.1", "1", "5", "+Inf", "+Inf", "x"}, "le")
@@ -299,6 +304,41 @@ func DrawDataset(t *rapid.T, w Window, o DataOpts) Dataset {
 			samples = append(samples, core.Sample{T: x, V: f})
 		}
 		ds.Series = append(ds.Series, core.Series{Labels: lbls, Samples: samples})
+		if o.Twins && len(samples) >= 2 && chance(t, 1, 3, "twin") {
+			// twin: same labels under another metric name; it takes over at a drawn
+			// hand-over point (disjoint, sharing exactly one timestamp, or overlapping)
+			var tl []core.Label
+			for _, l := range lbls {
+				if l.N == "__name__" {
+					l.V = l.V + "2"
+				}
+				tl = append(tl, l)
+			}
+			cut := ir(t, 1, len(samples)-1, "twincut")
+			first := append([]core.Sample(nil), samples[:cut]...)
+			second := append([]core.Sample(nil), samples[cut:]...)
+			switch ir(t, 0, 3, "twinkind") {
+			case 0: // the first series goes stale exactly where the twin starts
+				first = append(first, core.Sample{T: second[0].T, V: core.Stale()})
+			case 1: // both have a sample at the hand-over timestamp
+				first = append(first, second[0])
+			case 2: // overlap of several samples
+				n := len(second)
+				if n > 3 {
+					n = 3
+				}
+				first = append(first, second[:n]...)
+			}
+			ds.Series[len(ds.Series)-1].Samples = first
+			key2 := ""
+			for _, l := range tl {
+				key2 += l.N + "=" + l.V + ","
+			}
+			if !seen[key2] {
+				seen[key2] = true
+				ds.Series = append(ds.Series, core.Series{Labels: tl, Samples: second})
+			}
+		}
 	}
 	return ds
 }
